@@ -42,6 +42,7 @@ type shape struct {
 	Eps     []epProv `json:"eps"`
 	N       int      `json:"n"`
 	Mixed   bool     `json:"mixed"`
+	Ent     string   `json:"ent"` // "multihash" | "bare" (a digest without multihash header) | "empty": the schema says Bytes
 	Next    bool     `json:"next"`
 }
 
@@ -115,6 +116,11 @@ func buildChunk(s *shape) *schema.EntryChunk {
 			fn = fns[i%len(fns)]
 		}
 		mh, _ := multihash.Sum([]byte(fmt.Sprintf("c13-entry-%d", i)), fn, -1)
+		if i == 0 && s.Ent == "bare" {
+			mh = mh[2:] // the digest alone
+		} else if i == 0 && s.Ent == "empty" {
+			mh = multihash.Multihash{}
+		}
 		ec.Entries = append(ec.Entries, mh)
 	}
 	if s.Next {
@@ -278,6 +284,17 @@ func Run(args []string) *rep.Report {
 						bad("unwrap:"+how, tc, err.Error())
 					} else if d := adEqual(ad, got); d != "" {
 						bad("round-trip:"+how, tc, "field "+d+" differs")
+					} else {
+						// the value handed out is the caller's: editing it leaves the node it came from as it was
+						got.Provider, got.IsRm, got.Metadata = "edited", !got.IsRm, []byte("edited")
+						if len(got.Addresses) > 0 {
+							got.Addresses[0] = "/ip4/203.0.113.1/tcp/1"
+						}
+						if again, err := schema.UnwrapAdvertisement(n); err != nil {
+							bad("unwrap:"+how, tc, "second unwrap of the same node: "+err.Error())
+						} else if d := adEqual(ad, again); d != "" {
+							bad("unwrapped-value-aliases-node", tc, how+": after the first unwrapped value was edited, field "+d+" of a second unwrap of the same node differs")
+						}
 					}
 				} else {
 					got, err := schema.UnwrapEntryChunk(n)
@@ -285,6 +302,16 @@ func Run(args []string) *rep.Report {
 						bad("unwrap:"+how, tc, err.Error())
 					} else if d := chunkEqual(ec, got); d != "" {
 						bad("round-trip:"+how, tc, "field "+d+" differs")
+					} else {
+						if len(got.Entries) > 0 {
+							got.Entries[0] = []byte("edited")
+						}
+						got.Next = nil
+						if again, err := schema.UnwrapEntryChunk(n); err != nil {
+							bad("unwrap:"+how, tc, "second unwrap of the same node: "+err.Error())
+						} else if d := chunkEqual(ec, again); d != "" {
+							bad("unwrapped-value-aliases-node", tc, how+": after the first unwrapped value was edited, field "+d+" of a second unwrap of the same node differs")
+						}
 					}
 				}
 			}
